@@ -28,6 +28,7 @@ package parallel
 //@ pure exhausted(ts []execution.TaskRef, maxAttempts int64) bool = !anySucc(ts) && cntFin(ts, len(ts)) >= maxAttempts
 
 //@ func getIndexStatus
+//@   locals numStarting: int64; numRunning: int64; numTerminal: int64; succeeded: bool; failed: bool; status: github.com/furiko-io/furiko/apis/execution/v1alpha1.ParallelIndexStatus
 //@   params index, hash, tasks, maxAttempts
 //@   tags C10
 //@   loop 1 invariant -1 <= rangeindex && rangeindex < len(tasks)
@@ -52,6 +53,7 @@ package parallel
 //@ pure created(ix execution.ParallelIndexStatus) bool = ix.State == execution.IndexRetryBackoff || ix.State == execution.IndexStarting || ix.State == execution.IndexRunning || ix.State == execution.IndexTerminated
 
 //@ func GetParallelStatusCounters
+//@   locals status: github.com/furiko-io/furiko/apis/execution/v1alpha1.ParallelStatusCounters
 //@   params indexes
 //@   tags C10
 //@   loop 1 invariant -1 <= rangeindex && rangeindex < len(indexes)
@@ -123,6 +125,7 @@ package parallel
 
 // GenerateIndexes (C14): exactly the requested indexes, in a deterministic order, nothing else set
 //@ func GenerateIndexes
+//@   locals indexes: []github.com/furiko-io/furiko/apis/execution/v1alpha1.ParallelIndex; i: int64; combinations: []github.com/furiko-io/furiko/pkg/utils/matrix.Combination
 //@   params spec
 //@   tags C14, C17
 //@   safety alloc
@@ -173,6 +176,7 @@ package parallel
 // "one-slot-per-index" is the property's "distinct indexes never share a ... status slot": it needs HashIndex to be
 // injective on the indexes of the spec, which it is not (known finding F2).
 //@ func HashIndexes
+//@   locals hashes: map[int]string; hashesIdx: map[string]int
 //@   params indexes
 //@   tags C14
 //@   loop 1 invariant -1 <= rangeindex && rangeindex < len(indexes)
@@ -210,6 +214,7 @@ package parallel
 //@     && ns(q.Earliest) == latestFin(job.Status.Tasks, hashOf(q.ParallelIndex), len(job.Status.Tasks)) + execution.retryDelaySeconds(job) * 1000000000
 
 //@ func ComputeMissingIndexesForCreation
+//@   locals foundList: []bool; nextRetryIndex: map[string]int64; latestFinishTimeByIndex: map[string]time.Time; requests: []github.com/furiko-io/furiko/pkg/execution/util/parallel.IndexCreationRequest; i: int
 //@   params job, indexes
 //@   tags C08
 //@   requires job != nil
